@@ -59,6 +59,27 @@ def shard(col, shard_i, ngrammars, ninputs, full):
             texts = ['x', 'x +', 'x + y', 'x!', 'x ! y ,', 'ab', 'ab,', ''][:ninputs]
             col.count('grammar.twins')
             lrec = False
+        elif gi % 6 == 4:
+            # a rule retried at the same position by a later alternative, while another alternative fails equally far with a
+            # failure of ANOTHER class (token / pattern / end of text): which failure is reported must not depend on the memo;
+            # and rules handing on the AST of another rule (lone call / override, recursively) with parse information
+            P = ('tok', rng.choice(['(', 'a']))
+            A = rng.choice([('pat', r'\w+'), ('tok', 'b'), ('seq', [('tok', 'b'), ('pat', r'\d+')])])
+            B = rng.choice([('pat', r'\)+'), ('tok', 'c'), 'eof'])
+            T1, T2 = ('tok', 'x'), ('tok', 'z')
+            hand = rng.choice(['none', 'override-recursive', 'lone-call'])
+            rules = [('start', [], ('choice', [('seq', [('call', 'r'), T1]), ('call', 's'), ('seq', [('call', 'r'), T2]), ('seq', [('call', 'h'), ('tok', '?')]), ('call', 'h')])),
+                     ('r', [], ('seq', [P, A])), ('s', [], ('seq', [P, B]))]
+            if hand == 'override-recursive':
+                rules.append(('h', [], ('choice', [('seq', [('tok', '('), ('over', False, ('call', 'h')), ('tok', ')')]), ('named', False, 'v', ('pat', r'\w+'))])))
+            elif hand == 'lone-call':
+                rules += [('h', [], ('call', 'k')), ('k', [], ('named', False, 'v', ('pat', r'\w+')))]
+            else:
+                rules.append(('h', [], ('named', False, 'v', ('pat', r'\w+'))))
+            g = {'rules': rules, 'directives': {}, 'keywords': []}
+            texts = ['(]', '( ]', '(b', '(b x', '(b z', 'a', 'a b', 'a b 1 z', '(x)', '(x)?', '((x))?', 'x?', 'x', '(', '()', 'a c', '(b 1 y'][:max(ninputs, 12)]
+            col.count('grammar.retry-and-handing-on')
+            lrec = False
         elif lrec:
             g, kind = G.lrec_grammar(rng)
             texts = G.lrec_inputs(rng, ninputs, g=g)
@@ -138,6 +159,16 @@ def shard(col, shard_i, ngrammars, ninputs, full):
                               f'the parseinfo entries differ between settings {full[0][0].settings.kwargs()} and {c.settings.kwargs()}',
                               {'oracle': 'same parseinfo under every memo configuration', 'case': c.describe(),
                                'reference_settings': full[0][0].settings.kwargs(), 'reference': full[0][1], 'outcome': o})
+        # the class of the reported error and where it is reported are part of the outcome (implementation only)
+        fails = [(results[i][0], results[i][0].failure) for i in range(start, start + n)
+                 if results[i][2] is not None and results[i][1][0] == 'fail' and results[i][0].failure is not None]
+        for c, fl in fails[1:]:
+            col.count('pairs.compared.failure-class')
+            if fl != fails[0][1]:
+                col.violation(f'oracle:config-changes-failure:{c.tag}:{sorted(c.settings.kwargs())}:{fails[0][1][0]}->{fl[0]}',
+                              f'the reported failure differs between settings {fails[0][0].settings.kwargs()} and {c.settings.kwargs()}: {fails[0][1]} vs {fl}',
+                              {'oracle': 'same error class and position under every configuration', 'case': c.describe(),
+                               'reference_settings': fails[0][0].settings.kwargs(), 'reference': list(fails[0][1]), 'failure': list(fl)})
         ref_c, ref = outs[0]
         for c, o in outs[1:]:
             col.count('pairs.compared')
